@@ -21,8 +21,8 @@ def run(ctx, prop):
         # the privileged sessions are sampled on top, so that the share of transfer-port plans stays what it was
         adm = [p for p in plans if p.get("sess") == "adm"]
         scan = [p for p in plans if p.get("sess") == "scan"]
-        lurk = [p for p in plans if p.get("sess") == "lurker"]
-        plans = [p for p in plans if p.get("sess") not in ("adm", "scan", "lurker")][:450] + adm[:150] + scan[:3] + lurk
+        lurk = [p for p in plans if p.get("sess") in ("lurker", "kick")]
+        plans = [p for p in plans if p.get("sess") not in ("adm", "scan", "lurker", "kick")][:450] + adm[:150] + scan[:3] + lurk
         rng.shuffle(plans)
     pp = ctx.path("plans.ndjson")
     with open(pp, "w") as f:
